@@ -1,7 +1,5 @@
 #!/bin/sh
-# behaviour-preserving refactorings of the repository must NOT make any check fire
+# behaviour-preserving refactorings of the repository must NOT make any check fire (nor leave one inconclusive)
+#   tools/equivtest.sh [props|all] [parallel jobs]
 cd "$(dirname "$0")/.."
-for p in selftest/equivalent/*.diff; do
-  echo "=== $p"
-  tools/seedtest.py $p --props ${1:-all} --tests | grep -E "repo tests|VIOLATION|inconclusive|exit|CAUGHT"
-done
+ls selftest/equivalent/*.diff | xargs -P ${2:-3} -I{} sh -c 'r=$(tools/seedtest.py {} --props '"${1:-all}"' --tests 2>&1 | grep -E "repo tests|VIOLATION|inconclusive|exit|CAUGHT" | tr "\n" " "); echo "=== {} $r" | cut -c1-600'
